@@ -8,10 +8,13 @@ discharged with the GENERATED sinks of part `sink` (Gen/Sink.lean).
   C11G_readout_len_byte, C11G_readout_len_word    `..; len()` = `idealLen ops` for the generated `MemSink<u8>` / `MemSink<u64>`
   C08G4_header_write_closed      `FrameHeader.write` of Gen/Writer with `encode_to_utf8like` := generated (Gen/Utf8.lean) and
                                  `as_slice` := generated (Gen/Sink.lean) = the hand model's header operations
-Remaining parameters of `FrameHeader.write`: the CRC-8 `checksum` only.  Not closed here: `MemSink_write_to_byte_slice`
-(`wordExport`) of `Frame.write` - `C11G_write_to_byte_slice` gives the generated side, the equality of the words' bytes with
-`packBytes` of the ideal bits padded to whole words is still missing - so `Frame.write` / `Stream.write` keep `wordExport`
-(and both `checksum`s, and the stale buffer, which `C08G_frame_ops` shows irrelevant) as parameters.
+  word_export_pack               word-level analogue: the big-endian bytes of the u64 storage words = `packBytes` of the bits written,
+                                 zero-padded to whole words (the shape of `wordExport`)
+  C11G_readout_word_export       `clear(); <ops>; write_to_byte_slice(dest)` on the generated `MemSink<u64>` = `wordExport ops dest`
+  C08G4_frame_write_closed       `Frame.write` of Gen/Writer with utf8, `as_slice`, `len`, `write_to_byte_slice` all generated =
+                                 the hand model's `Frame.ops`
+  C08G4_stream_write_closed      the same for `Stream.write` (every frame `FrameOk`)
+Remaining parameters: the CRC-8 / CRC-16 `checksum`s only (and the stale buffer / stale sinks, universally quantified).
 `Small ops` = every op valid and fewer than 2^64 - 64 bits in all; `hsmall` of the header corollary asks this of the
 operations the scratch sink receives (satisfiable: example at the end).
 -/
@@ -204,4 +207,232 @@ instance (ops : List Op) : Decidable (Small ops) := by unfold Small; infer_insta
 
 /-- `hsmall` is satisfiable: the scratch operations of the example header of C08Gen -/
 example : ∃ hb, headerFill encodeUtf8like exHeader = some hb ∧ Small hb := ⟨_, rfl, by decide⟩
+
+/-! ### the word-level export -/
+
+theorem getElem?_flatMap8 {α β : Type} (f : α → List β) (hf : ∀ a, (f a).length = 8) (xs : List α) (j : Nat) :
+    (xs.flatMap f)[j]? = (xs[j / 8]?).bind fun a => (f a)[j % 8]? := by
+  induction xs generalizing j with
+  | nil => simp
+  | cons x xs ih =>
+    simp only [List.flatMap_cons]
+    by_cases h : j < 8
+    · have hd : j / 8 = 0 := by omega
+      have hm : j % 8 = j := by omega
+      rw [List.getElem?_append_left (by rw [hf]; exact h)]
+      simp [hd, hm]
+    · rw [List.getElem?_append_right (by rw [hf]; omega), hf, ih]
+      have hd : j / 8 = (j - 8) / 8 + 1 := by omega
+      have hm : (j - 8) % 8 = j % 8 := by omega
+      simp [hd, hm]
+
+/-- the big-endian bytes of the storage words of a `WordSink` -/
+def wordBytes (s : WordSink) : List Nat := (s.storage.flatMap beBytes).map BitVec.toNat
+
+theorem wordBytes_len (s : WordSink) : (wordBytes s).length = 8 * s.storage.length := by
+  simp only [wordBytes, List.length_map]
+  induction s.storage with
+  | nil => rfl
+  | cons x xs ih => simp [List.flatMap_cons, beBytes_length, ih]; omega
+
+theorem wordBytes_bit (s : WordSink) (i : Nat) (hi : i < 64 * s.storage.length) :
+    ((wordBytes s).getD (i / 8) 0).testBit (7 - i % 8) = s.bitAt i := by
+  have hq : i / 8 / 8 < s.storage.length := by omega
+  have hq' : i / 64 < s.storage.length := by omega
+  have hk : i / 8 % 8 < 8 := Nat.mod_lt _ (by decide)
+  have e64 : i / 8 / 8 = i / 64 := by omega
+  simp only [wordBytes, List.getD_eq_getElem?_getD, List.getElem?_map,
+    getElem?_flatMap8 beBytes (fun a => beBytes_length a) s.storage (i / 8), List.getElem?_eq_getElem hq,
+    Option.bind_some, WordSink.bitAt, List.getElem?_eq_getElem hq', Option.getD_some]
+  simp only [beBytes, List.getElem?_map, List.getElem?_range hk, Option.map_some, Option.getD_some,
+    BitVec.toNat_setWidth, BitVec.toNat_ushiftRight, BitVec.getMsbD, BitVec.getLsbD, e64]
+  have hm : i % 64 < 64 := Nat.mod_lt _ (by decide)
+  simp only [hm, decide_true, Bool.true_and, Nat.testBit_mod_two_pow, Nat.testBit_shiftRight]
+  have h7 : 7 - i % 8 < 8 := by omega
+  simp only [h7, decide_true, Bool.true_and]
+  congr 1; omega
+
+theorem wordBytes_bits (s : WordSink) (hi : s.Inv) :
+    bytesToBits (wordBytes s) = s.abs ++ List.replicate (64 * s.storage.length - s.len) false := by
+  have hsz := hi.size
+  apply List.ext_getElem?
+  intro i
+  by_cases hi64 : i < 64 * s.storage.length
+  · rw [getElem?_bytesToBits _ i (by rw [wordBytes_len]; omega), wordBytes_bit s i hi64]
+    by_cases hl : i < s.len
+    · rw [List.getElem?_append_left (by simpa [WordSink.abs] using hl)]
+      simp [WordSink.abs, hl]
+    · rw [List.getElem?_append_right (by simp [WordSink.abs]; omega), hi.tail i (by omega)]
+      simp only [WordSink.abs, List.length_map, List.length_range]
+      rw [List.getElem?_eq_getElem (by simp; omega)]
+      simp
+  · rw [List.getElem?_eq_none (by rw [bytesToBits_len, wordBytes_len]; omega),
+      List.getElem?_eq_none (by simp [WordSink.abs]; omega)]
+
+theorem packBytes_zeros (q : Nat) : packBytes (List.replicate (8 * q) false) = List.replicate q 0 := by
+  have : bytesToBits (List.replicate q 0) = List.replicate (8 * q) false := by
+    induction q with
+    | zero => rfl
+    | succ q ih =>
+      rw [List.replicate_succ, OpsL.bytesToBits_cons, ih, natToBits_zero, List.replicate_append_replicate]
+      congr 1; omega
+  have h := Strict.packBytes_bytesToBits (List.replicate q 0) (by intro b hb; simp at hb; omega)
+  rw [this] at h; exact h
+
+/-- word-level analogue of `byte_export_pack`: the big-endian bytes of the storage words are `packBytes` of the bits
+written, zero-padded to whole words (the shape `wordExport` has) -/
+theorem word_export_pack (s : WordSink) (hi : s.Inv) :
+    wordBytes s = packBytes s.abs ++ List.replicate ((8 - (packBytes s.abs).length % 8) % 8) 0 := by
+  have hsz := hi.size
+  have hal : s.abs.length = s.len := by simp [WordSink.abs]
+  have hlt : ∀ b ∈ wordBytes s, b < 256 := by
+    intro b hb
+    simp only [wordBytes, List.mem_map] at hb
+    obtain ⟨x, _, rfl⟩ := hb
+    exact x.isLt
+  have h := Strict.packBytes_bytesToBits (wordBytes s) hlt
+  rw [wordBytes_bits s hi] at h
+  -- split the padding: up to the byte boundary, then whole zero bytes
+  let k := (8 - s.len % 8) % 8
+  let q := (64 * s.storage.length - s.len - k) / 8
+  have hkq : 64 * s.storage.length - s.len = k + 8 * q := by simp only [k, q]; omega
+  rw [hkq, ← List.replicate_append_replicate, ← List.append_assoc] at h
+  have hlen8 : (s.abs ++ List.replicate k false).length = 8 * ((s.len + k) / 8) := by
+    simp only [List.length_append, hal, List.length_replicate, k]; omega
+  rw [Strict.packBytes_append _ _ _ hlen8, packBytes_zeros,
+    packBytes_pad _ _ k rfl (by simp only [k]; omega) (by rw [hal]; simp only [k]; omega)] at h
+  have hpl : (packBytes s.abs).length = (s.len + k) / 8 := by
+    rw [← packBytes_pad _ s.abs k rfl (by simp only [k]; omega) (by rw [hal]; simp only [k]; omega)]
+    exact Repo.packBytes_length _ _ hlen8
+  rw [← h, hpl]
+  congr 2
+  simp only [k, q]; omega
+
+/-- `sink.clear(); <ops>; sink.write_to_byte_slice(&mut dest)` on the generated `MemSink<u64>` (a panic would give `[]`) -/
+def genWordExport (dbg : Bool) (g : MemSink 64) (ops : List Op) (old : List Nat) : List Nat :=
+  match ops.foldlM (genStepWord dbg) (MemSink.clear g) with
+  | some g' =>
+    match MemSink.write_to_byte_slice dbg g' (old.map (BitVec.ofNat 8)) with
+    | some d => d.map BitVec.toNat
+    | none => []
+  | none => []
+
+theorem C11G_readout_word_export (dbg : Bool) (g : MemSink 64) (ops : List Op) (old : List Nat) (h : Small ops)
+    (hold : ∀ b ∈ old, b < 256) (hlen : idealLen ops / 8 ≤ old.length) :
+    genWordExport dbg g ops old = wordExport ops old := by
+  obtain ⟨s', hs', hinv, habs, hl⟩ := C11_word_run ops h.1
+  have hrun := C11G_word_run dbg (MemSink.new 64) ops WordSink.inv_empty h.1 (by simpa [MemSink.new] using h.2)
+  have hc : MemSink.clear g = MemSink.new 64 := rfl
+  have he : toWord (MemSink.new 64) = WordSink.empty := rfl
+  have hsz := hinv.size
+  have hgrow : s'.len ≤ (ops.map grow).sum := by
+    have : ∀ (ops : List Op) (len : Nat), (idealRun len ops).length ≤ (ops.map grow).sum := by
+      intro ops
+      induction ops with
+      | nil => intro len; simp [idealRun]
+      | cons op ops ih =>
+        intro len
+        simp only [idealRun, List.length_append, List.map_cons, List.sum_cons]
+        have := ideal_length_le len op
+        have := ih (len + (op.ideal len).length)
+        omega
+    rw [hl]; exact this ops 0
+  have hb := h.2
+  have hmap : (old.map (BitVec.ofNat 8)).map BitVec.toNat = old := by
+    rw [List.map_map]
+    conv => rhs; rw [← List.map_id old]
+    apply List.map_congr_left
+    intro b hbm
+    simp [Nat.mod_eq_of_lt (hold b hbm)]
+  have hw := C11G_write_to_byte_slice dbg (by decide) (ofWord s') (old.map (BitVec.ofNat 8))
+    (by simp only [ofWord]; omega)
+  have hcond : (ofWord s').storage = [] ∨ ((ofWord s').storage.length - 1) * (64 / 8) ≤ (old.map (BitVec.ofNat 8)).length := by
+    right
+    simp only [ofWord, List.length_map, idealLen, ← hl] at hlen ⊢
+    omega
+  simp only [genWordExport, hc, hrun, he, hs', Option.map_some, hw, hcond, if_true, List.map_append, List.map_take,
+    List.map_drop, hmap, List.length_map]
+  have hwb := word_export_pack s' hinv
+  simp only [wordExport, ← habs, ← hwb]
+  have : (wordBytes s').length = s'.storage.length * (64 / 8) := by rw [wordBytes_len]; omega
+  rw [this]
+  simp only [List.length_map, ofWord] at hcond
+  simp only [wordBytes, ofWord, hcond, if_true, List.map_append, List.map_take, List.map_drop, hmap]
+
+/-! ### `Frame::write` / `Stream::write` with every scratch-sink parameter generated -/
+
+open FlacVerif.Gen.Writer in
+/-- the operations the frame's `MemSink<u64>` scratch sink receives (first argument of the `bindW` of the generated `Frame.write`) -/
+def frameFill (p8 : CrcParams) (self : Gen.Writer.Frame) : W :=
+  seqW (FrameHeader.write encodeUtf8like (fun _ => true) scratchBytes (crc p8) self.header) <|
+  seqW (forW self.subframes (fun sub => SubFrame.write sub)) <|
+  emit [Op.alignToByte] <|
+  some []
+
+theorem vecResize_len (v : List Nat) (n x : Nat) : (Gen.Writer.vecResize v n x).length = n := by
+  simp only [Gen.Writer.vecResize, List.length_append, List.length_take, List.length_replicate]; omega
+
+theorem vecResize_lt (v : List Nat) (n : Nat) (h : ∀ b ∈ v, b < 256) : ∀ b ∈ Gen.Writer.vecResize v n 0, b < 256 := by
+  intro b hb
+  simp only [Gen.Writer.vecResize, List.mem_append, List.mem_replicate] at hb
+  rcases hb with hb | ⟨_, rfl⟩
+  · exact h b (List.mem_of_mem_take hb)
+  · decide
+
+/-- `C08G_frame_ops` with the UTF-8-like encoder, the header scratch sink (`as_slice`) and the frame scratch sink (`len`,
+`write_to_byte_slice`) all instantiated by GENERATED functions, both profiles, from any stale sinks / buffer; only the two
+CRC `checksum`s remain parameters -/
+theorem C08G4_frame_write_closed (dbg : Bool) (p8 p16 : CrcParams) (g : Gen.Writer.Frame) (stale : List Nat)
+    (g8 : MemSink 8) (g64 : MemSink 64)
+    (hp : g.precomputed_bitstream = none) (hc : ChanOk g.header.channel_assignment) (hs : ∀ s ∈ g.subframes, s.WF)
+    (hstale : ∀ b ∈ stale, b < 256)
+    (hsmallH : ∀ hb, headerFill encodeUtf8like g.header = some hb → Small hb)
+    (hsmallF : ∀ fs, frameFill p8 g = some fs → Small fs) :
+    Gen.Writer.Frame.write stale (utf8Param dbg) (utf8Exact dbg) (genAsSlice dbg g8) (crc p8) (genLenWord dbg g64)
+      (genWordExport dbg g64) (crc p16) g = Frame.ops p8 p16 (frameOfGen g) := by
+  rw [← C08G_frame_ops p8 p16 g stale (fun _ => true) hp hc hs]
+  have hh : Gen.Writer.FrameHeader.write (utf8Param dbg) (utf8Exact dbg) (genAsSlice dbg g8) (crc p8) g.header
+      = Gen.Writer.FrameHeader.write encodeUtf8like (fun _ => true) scratchBytes (crc p8) g.header := by
+    rw [C08G4_header_write_closed dbg p8 g.header g8 hc hsmallH, C08G_header_ops p8 g.header _ hc]
+  simp only [Gen.Writer.Frame.write, hp, hh]
+  have hf : frameFill p8 g = (Gen.Writer.seqW (Gen.Writer.FrameHeader.write encodeUtf8like (fun _ => true) scratchBytes (crc p8) g.header) <|
+      Gen.Writer.seqW (Gen.Writer.forW g.subframes (fun sub => Gen.Writer.SubFrame.write sub)) <|
+      Gen.Writer.emit [Op.alignToByte] <| some []) := rfl
+  rw [← hf]
+  cases hfill : frameFill p8 g with
+  | none => rfl
+  | some fs =>
+    have hsm := hsmallF fs hfill
+    have hl := C11G_readout_len_word dbg g64 fs hsm
+    simp only [Gen.Writer.bindW, hl]
+    rw [C11G_readout_word_export dbg g64 fs _ hsm (vecResize_lt stale _ hstale)
+      (by rw [vecResize_len, Nat.shiftRight_eq_div_pow]; exact Nat.le_refl _)]
+
+theorem forW_congr {α : Type} (xs : List α) (f f' : α → Gen.Writer.W) (h : ∀ x ∈ xs, f x = f' x) :
+    Gen.Writer.forW xs f = Gen.Writer.forW xs f' := by
+  induction xs with
+  | nil => rfl
+  | cons x xs ih =>
+    simp only [Gen.Writer.forW, h x (by simp), ih (fun y hy => h y (by simp [hy]))]
+
+/-- `C08G_stream_ops` with every scratch-sink parameter and the UTF-8-like encoder generated; only the CRC `checksum`s remain -/
+theorem C08G4_stream_write_closed (dbg : Bool) (p8 p16 : CrcParams) (s : Stream) (gfs : List Gen.Writer.Frame) (stale : List Nat)
+    (g8 : MemSink 8) (g64 : MemSink 64)
+    (hf : gfs.map frameOfGen = s.frames) (hg : ∀ g ∈ gfs, FrameOk g)
+    (ht : s.info.total < 2 ^ 64) (htag : ∀ m ∈ s.metadata, m.tag < 128)
+    (hstale : ∀ b ∈ stale, b < 256)
+    (hsmallH : ∀ g ∈ gfs, ∀ hb, headerFill encodeUtf8like g.header = some hb → Small hb)
+    (hsmallF : ∀ g ∈ gfs, ∀ fs, frameFill p8 g = some fs → Small fs) :
+    Gen.Writer.Stream.write stale (utf8Param dbg) (utf8Exact dbg) (genAsSlice dbg g8) (crc p8) (genLenWord dbg g64)
+      (genWordExport dbg g64) (crc p16) (streamToGen s gfs) = s.ops p8 p16 := by
+  rw [← C08G_stream_ops p8 p16 s gfs stale (fun _ => true) hf hg ht htag]
+  unfold Gen.Writer.Stream.write
+  have hfr : (streamToGen s gfs).frames = gfs := rfl
+  rw [hfr]
+  rw [forW_congr gfs _ (fun frame => Gen.Writer.Frame.write stale encodeUtf8like (fun _ => true) scratchBytes (crc p8) idealLen
+    wordExport (crc p16) frame)]
+  intro g hgm
+  obtain ⟨hp, hc, hs⟩ := hg g hgm
+  rw [C08G4_frame_write_closed dbg p8 p16 g stale g8 g64 hp hc hs hstale (hsmallH g hgm) (hsmallF g hgm),
+    C08G_frame_ops p8 p16 g stale _ hp hc hs]
 end FlacVerif.C08Gen4
